@@ -187,6 +187,38 @@ var forms = []struct{ name, code string }{
 	{"semicolon-free-header", "for ok {\n\tok = false\n}"},
 }
 
+// single statements placed last in a file / block.
+var lastStatements = []struct{ name, code string }{
+	{"var-typed", "var v1 int"},
+	{"var-typed-multi", "var v1, v2 string"},
+	{"var-typed-init", "var v1 int = 5"},
+	{"var-init", "var v1 = a"},
+	{"var-slice", "var v1 []int"},
+	{"short-def", "v1 := a"},
+	{"short-def-multi", "v1, v2 := a, s"},
+	{"short-def-string", "v1 := \"x\""},
+	{"short-def-raw", "v1 := `x`"},
+	{"short-def-slice", "v1 := []int{1}"},
+	{"short-def-bool", "v1 := true"},
+	{"short-def-neg", "v1 := -1"},
+	{"assign", "a = b"},
+	{"assign-multi", "a, b = b, a"},
+	{"op-assign", "a += b"},
+	{"inc", "a++"},
+	{"dec", "b--"},
+	{"slice-set", "xs[0] = a"},
+	{"print", "print(a)"},
+	{"print-empty", "print()"},
+	{"print-index", "print(xs[0])"},
+	{"copy-def", "v1 := copy(xs, xs)"},
+	{"len-def", "v1 := len(s)"},
+	{"app-call", "@echo(s)"},
+	{"write", "write(\"f.txt\", s)"},
+	{"expr-stmt", "a + b"},
+	{"compare-stmt", "a == b"},
+	{"itoa-stmt", "itoa(a)"},
+}
+
 // function-level forms (only legal at top level).
 var topForms = []struct{ name, code string }{
 	{"func-void", "func f1() {\n\tprint(\"f1\")\n}\nf1()"},
@@ -252,6 +284,16 @@ func generated() []prog {
 	// compact spellings (no blanks around operators): a base layout need not be gofmt-style
 	add("compact-operators", preamble+"c:=a-1\nd:=a -1\ne:=(a)-1+b*2\nf:=xs[b-1]+xs[b -1]\ng:=a<b&&b>1||ok\nprint(c,d,e,f,g,a+-1,a- -1,s+t)\nfor k:=0;k<2;k++{\n\tif k==a-7{\n\t\tprint(k-1,xs[k]-1)\n\t}\n}\n")
 	add("multi-line-raw-string-and-comment", preamble+"/* a block comment\n   over two lines */ m := `first\nsecond\n\nfourth`\nprint(len(m), m)\nprint(m == \"first\\nsecond\\n\\nfourth\")\n")
+	// every statement kind as the LAST statement of the file (with and without a final line end: the
+	// final-newline transformations toggle it) and as the last statement of a block
+	for _, ls := range lastStatements {
+		add("last:"+ls.name+"@file", preamble+ls.code+"\n")
+		add("last:"+ls.name+"@file-no-newline", preamble+ls.code)
+		add("last:"+ls.name+"@if-block", preamble+"if ok {\n"+indent(ls.code, "\t")+"\n}\n")
+		add("last:"+ls.name+"@for-block", preamble+"for k := 0; k < 1; k++ {\n"+indent(ls.code, "\t")+"\n}\n")
+		add("last:"+ls.name+"@func-block", "func wrap(a int, b int, s string, ok bool, xs []int) {\n"+indent(ls.code, "\t")+"\n}\nwrap(7, 2, \"hello\", true, []int{1, 2, 3})\n")
+		add("last:"+ls.name+"@case-block", preamble+"switch b {\ncase 2:\n"+indent(ls.code, "\t")+"\n}\n")
+	}
 	for _, f := range topForms {
 		src := f.code
 		if f.name != "empty-program" && f.name != "no-final-newline" && !strings.HasSuffix(src, "\n") {
